@@ -69,7 +69,9 @@ def spec(cfg, structs, f):
             if len(pl) != len(rl): return None
             def one(k, b):
                 return '(if %s then 1 else 0)' % b if k in INTS else '(f32_of_bits O (if %s then 1065353216 else 0))' % b if k == 'f32' else '(f64_of_bits O (if %s then 4607182418800017408 else 0))' % b
-            return mk(vs, [tree_coq(pv)], 'Ok (%s)' % tree_fill(rt, iter([one(r[1], m[2]) for r, m in zip(rl, pl)])), 'mask lanes as 1 / 0', st)
+            d = mk(vs, [tree_coq(pv)], 'Ok (%s)' % tree_fill(rt, iter([one(r[1], m[2]) for r, m in zip(rl, pl)])), 'mask lanes as 1 / 0', st)
+            if isinstance(d, dict) and core.mask_kind(structs, tname(pt)) == 'simd': d['intstd'] = True      # goes through the integer bitmask
+            return d
         # (smaller vector, scalar ...) tuples and mixed tuples
         if isinstance(pt, dict) and 't' in pt and any(not isinstance(x, str) for x in pt['t']):
             vs = []; pv = sym(structs, pt, 'p', vs); rt = sym(structs, st, 'r', []); pl = tree_leaves(pv); rl = tree_leaves(rt)
@@ -102,6 +104,6 @@ def run(tier, seed):
     t0 = time.time(); idx, info = flow.prepare()
     files, notes, cover = f1.build(idx, CFGS, 'cnv', spec, per_file=80, pid='C14')
     per_fn = 6 if tier == 'quick' else 60
-    return f1.run('C14', tier, seed, idx, info, t0, files, notes, cover, core.HDR, per_fn,
+    return f1.run('C14', tier, seed, idx, info, t0, files, notes, cover, core.HDR.replace('Import Base Spec.', 'Import Base Spec Sem.'), per_fn,
         'one lemma per conversion (as_*, From, TryFrom, mask-to-number, pair/extend/truncate moves) between the 40 numeric vector types and the quaternion types, sse2 + scalar-math + core-simd, for all Ops; correspondence: %d random calls per conversion with boundary-biased lanes (type MIN/MAX +-1, 2^k, inf, NaN, values just outside each target range), which validates the concrete cast semantics of Sem.v against rustc' % per_fn,
         ['cast semantics f32_to_int / i_cast / f64_to_f32 / i_try of Sem.v (validated by the correspondence run)', 'spec table harness/props/C14.py'], [])
